@@ -142,7 +142,18 @@ pub fn gen_case(c: &mut Chooser) -> Case {
         }
     }
     // name clashes between schema type names and identifiers used in scalar mappings
-    match c.choose("clash", 5) {
+    // schema types named like identifiers the generated files use themselves (type parameters, helper aliases,
+    // imports), like TypeScript's predefined type names, or like reserved words
+    const HELPER_NAMES: [&str; 14] = ["Context", "Schema", "Omit", "Promise", "Resolvers", "ResolverOutput", "GraphQLResolveInfo", "Pick", "Parent", "string", "object", "never", "class", "delete"];
+    match c.choose("clash", 5 + HELPER_NAMES.len()) {
+        k if k >= 5 => {
+            let n = HELPER_NAMES[k - 5];
+            let mut f = TsDef::new(TsKind::Object, Some(n));
+            f.fields = vec![FieldDef { desc: None, name: nm("x"), args: None, ty: Ty::named("Int"), dirs: vec![] }, FieldDef { desc: None, name: nm("self"), args: None, ty: Ty::named(n), dirs: vec![] }];
+            files[0].defs.push(f);
+            add_field(&mut files, "Post", "helper", Ty::named(n));
+            tags.push(format!("clash:type-named-{n}"));
+        }
         0 => {}
         1 => {
             // scalar Date mapped to the global Date
@@ -283,6 +294,13 @@ struct Cnt {
 }
 
 fn check_case(rep: &Reporter, case: &Case, texts: &[String], c: &Chooser, cnt: &Cnt) {
+    // a schema type named like an identifier of the generated files is a cause of its own
+    crate::report::set_key_suffix(case.tags.iter().find(|t| t.starts_with("clash:type-named-")).cloned());
+    check_case_inner(rep, case, texts, c, cnt);
+    crate::report::set_key_suffix(None);
+}
+
+fn check_case_inner(rep: &Reporter, case: &Case, texts: &[String], c: &Chooser, cnt: &Cnt) {
     let mut whole = TsDoc::default();
     for f in &case.files {
         whole.defs.extend(f.defs.iter().cloned());
@@ -342,7 +360,7 @@ fn check_case(rep: &Reporter, case: &Case, texts: &[String], c: &Chooser, cnt: &
     // (i) well-formedness
     let mut world = World::new();
     if let Err(e) = world.load("schema", &schema_text, &BTreeMap::new()) {
-        let cause = case.tags.iter().find(|t| t.contains("hostile") || t.contains("desc")).cloned().unwrap_or_else(|| if schema_text.contains("*/ `") || texts.iter().any(|t| t.contains("*/")) { "description-with-comment-terminator".into() } else { "other".into() });
+        let cause = if case.tags.iter().any(|t| t.starts_with("clash:type-named-")) && (e.contains("reserved word") || e.contains("predefined type name")) { "declared-name".to_string() } else { case.tags.iter().find(|t| t.contains("hostile") || t.contains("desc")).cloned().unwrap_or_else(|| if schema_text.contains("*/ `") || texts.iter().any(|t| t.contains("*/")) { "description-with-comment-terminator".into() } else { "other".into() }) };
         rep.report(Violation { key: format!("malformed_ts:schema[{cause}]"), what: format!("the schema declaration file is not well-formed TypeScript: {e}"), case: case_json(json!({"schema_dts": schema_text})) });
         return;
     }
@@ -395,11 +413,19 @@ fn check_resolvers(rep: &Reporter, case: &Case, sch: &Sch, world: &World, text: 
         Ok(d) => d,
         Err(_) => return,
     };
-    let Some(Decl::Type { body: Te::Obj(types), .. }) = decls.iter().find(|d| matches!(d, Decl::Type { name, .. } if name == "Resolvers")) else {
+    let Some(Decl::Type { body: Te::Obj(types), params: resolvers_params, .. }) = decls.iter().find(|d| matches!(d, Decl::Type { name, .. } if name == "Resolvers")) else {
         rep.report(Violation { key: "resolvers.no_resolvers_type".into(), what: "no `Resolvers` object type found".into(), case: case_json(json!({"resolvers_dts": text})) });
         return;
     };
     let scope = world.modules["resolvers"];
+    // the helper aliases lean on globals and imports: a declaration of the same name in this module captures them
+    for (helper, uses) in [("__Resolver", ["Promise", "GraphQLResolveInfo"]), ("__TypeResolver", ["Promise", "GraphQLResolveInfo"])] {
+        for u in uses {
+            if u == "Promise" && world.declares_type(scope, u) {
+                rep.report(Violation { key: format!("resolvers.helper_identifier_captured:{u}"), what: format!("{helper} uses the global `{u}`, but the module declares a type of that name"), case: case_json(json!({"resolvers_dts": text})) });
+            }
+        }
+    }
     let rs_out = RefSchema { sch, scalars: case.scalars.clone(), optional_input: case.cfg.generate.r#type.allow_undefined_as_optional_input, omit_typename: false, model: case.model.clone() };
     let rs_in = RefSchema { sch, scalars: case.scalars.clone(), optional_input: case.cfg.generate.r#type.allow_undefined_as_optional_input, omit_typename: false, model: case.model.clone() };
     // expected keys: every object type and every abstract type
@@ -442,7 +468,7 @@ fn check_resolvers(rep: &Reporter, case: &Case, sch: &Sch, world: &World, text: 
                     continue;
                 }
                 // Parent
-                match world.eval_in(scope, &args[0]) {
+                match world.eval_in_with_params(scope, &args[0], resolvers_params) {
                     Err(e) => bad("machinery.resolver_eval".into(), e),
                     Ok(t) => {
                         if let Err(e) = Cmp::new(world, &rs_out, Target::ResolverOutput).eq(&t, &RT::Local(tp.key.clone())) {
@@ -455,7 +481,7 @@ fn check_resolvers(rep: &Reporter, case: &Case, sch: &Sch, world: &World, text: 
                 for a in fd.args.iter().flatten() {
                     am.insert(a.name.s.clone(), (rs_in.wrap(&a.ty, true), false, true));
                 }
-                match world.eval_in(scope, &args[1]) {
+                match world.eval_in_with_params(scope, &args[1], resolvers_params) {
                     Err(e) => bad("machinery.resolver_eval".into(), e),
                     Ok(t) => {
                         if let Err(e) = Cmp::new(world, &rs_in, Target::ResolverInput).eq(&t, &RT::Obj(am)) {
@@ -466,7 +492,7 @@ fn check_resolvers(rep: &Reporter, case: &Case, sch: &Sch, world: &World, text: 
                 if args[2] != Te::Ref(vec!["Context".into()], vec![]) {
                     bad("resolvers.context".into(), format!("{}.{}: third argument is not Context", tp.key, f.key));
                 }
-                match world.eval_in(scope, &args[3]) {
+                match world.eval_in_with_params(scope, &args[3], resolvers_params) {
                     Err(e) => bad("machinery.resolver_eval".into(), e),
                     Ok(t) => {
                         if let Err(e) = Cmp::new(world, &rs_out, Target::ResolverOutput).eq(&t, &rs_out.wrap_local(&fd.ty)) {
@@ -491,7 +517,7 @@ fn check_resolvers(rep: &Reporter, case: &Case, sch: &Sch, world: &World, text: 
                 continue;
             }
             let poss = sch.possible_types(&tp.key);
-            match world.eval_in(scope, &args[0]) {
+            match world.eval_in_with_params(scope, &args[0], resolvers_params) {
                 Err(e) => bad("machinery.resolver_eval".into(), e),
                 Ok(t) => {
                     if let Err(e) = Cmp::new(world, &rs_out, Target::ResolverOutput).eq(&t, &RT::Union(poss.iter().cloned().map(RT::Local).collect())) {
